@@ -364,8 +364,26 @@ func ruleVersionNegotiation(c *Ctx) {
 		for _, call := range f.Calls() {
 			nm := p.CalleeName(f, call)
 			if (nm == "sort.Slice" || nm == "sort.SliceStable" || nm == "slices.SortFunc" || nm == "slices.SortStableFunc") && len(call.Args) == 2 && identObj(info, call.Args[0]) == sv {
-				if fl, ok := ast.Unparen(call.Args[1]).(*ast.FuncLit); ok && descendingComparator(info, fl, sv, nm) {
+				if ci, ct, cb := p.comparatorOf(f, call.Args[1]); ct != nil && descendingCmp(ci, ct, cb, sv, nm) {
 					sortN = g.NodeOf(call)
+				}
+			}
+		}
+	}
+	if sortN == nil {
+		// list := slices.SortedFunc(seq, descending comparator): the definition is the sort
+		for _, m := range g.Nodes {
+			as, ok := m.Ast.(*ast.AssignStmt)
+			if !ok || len(as.Lhs) != 1 || len(as.Rhs) != 1 || identObj(info, as.Lhs[0]) != sv {
+				continue
+			}
+			call, ok := ast.Unparen(as.Rhs[0]).(*ast.CallExpr)
+			if !ok || len(call.Args) != 2 {
+				continue
+			}
+			if nm := p.CalleeName(f, call); nm == "slices.SortedFunc" || nm == "slices.SortedStableFunc" {
+				if ci, ct, cb := p.comparatorOf(f, call.Args[1]); ct != nil && descendingCmp(ci, ct, cb, sv, "slices.SortFunc") {
+					sortN = m
 				}
 			}
 		}
@@ -1241,7 +1259,30 @@ func ruleLogLevels(c *Ctx) {
 // descendingComparator: func(i, j int) bool { return list[i] > list[j] } (sort.Slice)
 // or func(a, b int) int { return b - a } / cmp.Compare(b, a) (slices.SortFunc).
 func descendingComparator(info *types.Info, fl *ast.FuncLit, list *types.Var, sorter string) bool {
-	if len(fl.Body.List) != 1 || fl.Type.Params == nil {
+	return descendingCmp(info, fl.Type, fl.Body, list, sorter)
+}
+
+// comparatorOf resolves a comparator argument: a function literal, or the
+// name of a module function (its declaration is analysed instead).
+func (p *Prog) comparatorOf(f *Func, e ast.Expr) (*types.Info, *ast.FuncType, *ast.BlockStmt) {
+	e = ast.Unparen(e)
+	if fl, ok := e.(*ast.FuncLit); ok {
+		return f.Pkg.TypesInfo, fl.Type, fl.Body
+	}
+	if fn, ok := objOfExpr(f.Pkg.TypesInfo, e).(*types.Func); ok {
+		if d := p.FnOf(fn); d != nil && d.Decl != nil && d.Decl.Recv == nil {
+			return d.Pkg.TypesInfo, d.Decl.Type, d.Body
+		}
+	}
+	return nil, nil, nil
+}
+
+func descendingCmp(info *types.Info, ftype *ast.FuncType, body *ast.BlockStmt, list *types.Var, sorter string) bool {
+	fl := struct {
+		Type *ast.FuncType
+		Body *ast.BlockStmt
+	}{ftype, body}
+	if fl.Body == nil || len(fl.Body.List) != 1 || fl.Type.Params == nil {
 		return false
 	}
 	rs, ok := fl.Body.List[0].(*ast.ReturnStmt)
